@@ -8,6 +8,7 @@ import (
 	"fmt"
 	"io"
 	"iter"
+	"strings"
 
 	"github.com/fatih/color"
 	toml "github.com/pelletier/go-toml/v2"
@@ -110,7 +111,7 @@ func newJSONSpreaderSimple() *formattedSpreaderSimple[*jsonNode] {
 func newYAMLSpreaderSimple() *formattedSpreaderSimple[*yamlNode] {
 	return &formattedSpreaderSimple[*yamlNode]{
 		formattedRoot: func(name string) *yamlNode {
-			return &yamlNode{Name: name}
+			return &yamlNode{Name: yamlName(name)}
 		},
 		encode: func(w io.Writer) func(any) error {
 			return yaml.NewEncoder(w).Encode
@@ -193,12 +194,24 @@ func (tn *tomlNode) getChild(i int) sitter {
 }
 
 type yamlNode struct {
-	Name     string      `yaml:"value"`
+	Name     yamlName    `yaml:"value"`
 	Children []*yamlNode `yaml:"children"`
 }
 
+// yamlName is a node name in YAML output. yaml.v3 writes a string that contains a line break as a block scalar,
+// and when its first line begins with a blank, a tab or the break itself the result does not parse (or parses into
+// another string). Such names are written double-quoted; every other name is written as before.
+type yamlName string
+
+func (n yamlName) MarshalYAML() (interface{}, error) {
+	if strings.ContainsAny(string(n), "\n\r") {
+		return &yaml.Node{Kind: yaml.ScalarNode, Tag: "!!str", Style: yaml.DoubleQuotedStyle, Value: string(n)}, nil
+	}
+	return string(n), nil
+}
+
 func (yn *yamlNode) setChild(name string) {
-	yn.Children = append(yn.Children, &yamlNode{Name: name})
+	yn.Children = append(yn.Children, &yamlNode{Name: yamlName(name)})
 }
 
 func (yn *yamlNode) getChild(i int) sitter {
